@@ -743,7 +743,9 @@ def run(ctx):
         "TOPIC_NOT_FOUND into permanent warnings and, with one nsqlookupd, into a 502 of the whole listing), so the switch inactiveErrs "
         "is off (tie Tie.AdminAgg.topics_inactive_discards_errors accepts only the committed, unfixed shape). The defect is the open "
         "known finding view:inactive-drops-errors again (inactive_drops_errors_this_tree; judged by the oracle on every generated and "
-        "replayed case); inactive_warning / inactive_view_lists are theorems about the PROPOSAL (Fixes.all), not about this tree",
+        "replayed case); inactive_warning / inactive_view_lists are theorems about the PROPOSAL (Fixes.all), not about this tree; "
+        "for this tree: view_no_panic_tree, inactive_view_lists_tree, and tree_view_eq_all (view Fixes.tree = view Fixes.all for "
+        "every request other than `?inactive=true`, Proofs.AggregateTree) which carries the other Fixes.all theorems over",
         "counter_view_from_upstreams states the counter map relative to the channel map of GetNSQDStats (itself described by "
         "channels_merge over the upstreams' answers); that two different (topic, channel) pairs never share a key "
         "`topic:channel` (names without ':') is not proved and not needed for the statement as given",
